@@ -289,9 +289,11 @@ impl<F: Write + Seek> MiniAllocator<F> {
             }
         }
         // Add a new mini sector to the end of the mini stream and return it.
+        // The mini stream is grown first, so that if a later step fails, the
+        // MiniFAT never refers to a mini sector that the mini stream lacks.
         let new_mini_sector = self.minifat.len() as u32;
-        self.set_minifat(new_mini_sector, value)?;
         self.append_mini_sector()?;
+        self.set_minifat(new_mini_sector, value)?;
         Ok(new_mini_sector)
     }
 
